@@ -3,7 +3,7 @@ from vlib import env, core, gen, asserts, printer, gread, geom  # noqa: F401
 from props import c06
 
 ID = "C07"
-BUDGET = {"quick": 2500, "thorough": 25000}
+BUDGET = {"quick": 2000, "thorough": 25000}
 PROFILE = gen.profile(retract="matched", stress=True, home_mid=False, exact=False, arcs=1, ext_w=3, at_w=1)
 RULE = ("C01/C06-style programs rendered with a numeric stress renderer: relative moves whose sums round off (0.1+0.2-0.3), "
         "extrusions of 1e-5..1e-10, coordinates of 1e15 and 1e22, tiny coordinates (1e-7, 1e-9), inch conversion of all of these, "
